@@ -214,8 +214,11 @@ def pure_c(repo: Repo) -> List[Ob]:
         for s in mod.tree.body:
             if isinstance(s, (ast.Assign, ast.AnnAssign)) and isinstance(getattr(s, "value", None), (ast.Dict, ast.List, ast.Set, ast.DictComp, ast.ListComp)):
                 t = s.targets[0] if isinstance(s, ast.Assign) else s.target
-                if not src(t).startswith("__"):
-                    hits.append((s, f"module-level mutable table `{src(t)}`"))
+                tn = src(t)
+                mutated = any((isinstance(x, ast.Subscript) and isinstance(x.ctx, (ast.Store, ast.Del)) and src(x.value) == tn)
+                              or (method_call(x) and src(method_call(x)[0]) == tn and method_call(x)[1] in MUTATORS) for x in ast.walk(mod.tree))
+                if not tn.startswith("__") and mutated:
+                    hits.append((s, f"module-level table `{tn}` that functions store into (a cache)"))
         (obs.append(bad("PURE-c", mod.name, "no-cache", P, None, f"{mod.relpath}:{hits[0][0].lineno} {hits[0][1]}: results can outlive the parameters/dimensions they were computed for")) if hits else
          obs.append(ok("PURE-c", mod.name, "no-cache", P, None, "no memoisation decorator or module-level mutable table")))
     if n < 5:
@@ -236,7 +239,7 @@ def _alias_of_caller(e: ast.AST, fi: FuncInfo, cfg: CFG, at: Node, depth: int = 
         reasons = []
         for d in cfg.reaching_defs(at, e.id):
             if d is cfg.entry:
-                if e.id in params:
+                if e.id in params and not _scalar_param(fi, e.id):
                     reasons.append(f"`{e.id}` is a parameter")
                 continue
             if d.kind == "iter":
@@ -276,6 +279,16 @@ def _alias_of_caller(e: ast.AST, fi: FuncInfo, cfg: CFG, at: Node, depth: int = 
     if isinstance(e, ast.IfExp):
         return _alias_of_caller(e.body, fi, cfg, at, depth + 1) or _alias_of_caller(e.orelse, fi, cfg, at, depth + 1)
     return None
+
+
+def _scalar_param(fi: FuncInfo, name: str) -> bool:
+    a = fi.node.args
+    for arg in a.posonlyargs + a.args + a.kwonlyargs:
+        if arg.arg == name and arg.annotation is not None:
+            t = src(arg.annotation)
+            names = set(__import__("re").findall(r"[A-Za-z_]+", t))
+            return bool(names) and names <= {"int", "float", "bool", "str", "complex", "Optional", "Union", "None"}
+    return False
 
 
 @rule("ALIAS-MUT")
